@@ -264,3 +264,35 @@ Proof.
       * apply Hex. lia.
     + inversion H; subst. exists 0%nat. repeat split; auto; lia.
 Qed.
+
+(* ---- a whole set-speed run follows its trace: after n >= 1 whole steps from counter i0 the state shows sample
+   i0 + n - 1 of the trace (time and speed), whatever the consist did ---- *)
+Lemma ss_full_step_sample (e : Env (F:=R)) times speeds fmax st cache (c c' : ConsistR) st'' cache' :
+  ss_full_step e times speeds fmax ((st, cache), c) = Ok ((st'', cache'), c') ->
+  k_time (ts_k st'') = nthR times (k_i (ts_k st)) /\ k_speed (ts_k st'') = nthR speeds (k_i (ts_k st)) /\
+  k_i (ts_k st'') = S (k_i (ts_k st)).
+Proof.
+  intros H. pose proof (ss_full_step_counter _ _ _ _ _ _ _ _ _ _ H) as Hc.
+  destruct (ss_full_step_decomposes _ _ _ _ _ _ _ _ _ _ H) as (st' & c2 & t_i & t_p & _ & _ & _ & Hs & Hb & _).
+  subst st''. apply ss_solve_step_facts in Hs.
+  destruct Hs as (_ & _ & _ & _ & _ & _ & _ & _ & _ & _ & Ft & Fs & _).
+  unfold bump_i in *. cbn [ts_k k_time k_speed k_i] in *. auto.
+Qed.
+
+Theorem ss_full_run_follows_trace (e : Env (F:=R)) times speeds fmax : forall n x x',
+  ss_full_run (S n) e times speeds fmax x = Ok x' ->
+  let i := (k_i (ts_k (fst (fst x))) + n)%nat in
+  k_time (ts_k (fst (fst x'))) = nthR times i /\ k_speed (ts_k (fst (fst x'))) = nthR speeds i /\
+  k_i (ts_k (fst (fst x'))) = S i.
+Proof.
+  induction n as [|n IH]; intros x x' H.
+  - cbn [ss_full_run] in H. apply bind_ok in H. destruct H as (x1 & Hs & H). inversion H; subst x1; clear H.
+    destruct x as [[st cache] c]. destruct x' as [[st1 cache1] c1]. cbn [fst]. rewrite Nat.add_0_r.
+    exact (ss_full_step_sample _ _ _ _ _ _ _ _ _ _ Hs).
+  - change (ss_full_run (S (S n)) e times speeds fmax x) with
+      (let? x1 := ss_full_step e times speeds fmax x in ss_full_run (S n) e times speeds fmax x1) in H.
+    apply bind_ok in H. destruct H as (x1 & Hs & H). specialize (IH _ _ H).
+    destruct x as [[st cache] c]. destruct x1 as [[st1 cache1] c1].
+    destruct (ss_full_step_sample _ _ _ _ _ _ _ _ _ _ Hs) as (_ & _ & Hi). cbn [fst] in *.
+    rewrite Hi in IH. replace (k_i (ts_k st) + S n)%nat with (S (k_i (ts_k st)) + n)%nat by lia. exact IH.
+Qed.
